@@ -44,6 +44,7 @@ const (
 	iDel
 	iChild
 	iImport    // bind the name by an import statement: from vh import K7 as <name>
+	iImportDot // bind the name by `import <name>.q.m` (what is bound is the part before the FIRST dot)
 	iLocals    // log the one-letter names locals() shows (statement scopes only)
 	iRecall    // call again a function defined earlier in an enclosing scope
 	iLocalsSet // locals()['<name>'] = <id>: binds in a module or class namespace, changes nothing in a function
@@ -168,6 +169,8 @@ func (r *c03r) body(ind int, s *sscope) {
 			r.line(ind+1, fmt.Sprintf("vh.log((%d, 'delunbound'))", it.id))
 		case iImport:
 			r.line(ind, "from vh import K7 as "+it.name)
+		case iImportDot:
+			r.line(ind, "import "+it.name+".q.m")
 		case iLocals:
 			it.id = r.id()
 			r.line(ind, fmt.Sprintf("vh.log((%d, sorted([k for k in locals() if len(k) == 1])))", it.id))
@@ -262,7 +265,7 @@ func c03Collect(s *sscope) *c03info {
 	}
 	for _, it := range s.items {
 		switch it.k {
-		case iBind, iDel, iImport:
+		case iBind, iDel, iImport, iImportDot:
 			in.bound[it.name] = true
 		case iUse:
 			in.used[it.name] = true
@@ -292,7 +295,7 @@ func c03Static(s *sscope) string {
 	}
 	for _, it := range s.items {
 		switch it.k {
-		case iBind, iUse, iDel, iImport:
+		case iBind, iUse, iDel, iImport, iImportDot:
 			seen[it.name] = true
 		case iChild:
 			// a default value expression is a use in THIS scope
@@ -412,11 +415,20 @@ func (in *c03interp) load(f *c03frame, name string) (string, error) {
 		}
 		return c.val, nil
 	}
+	// a global lookup falls back to the builtins whenever the module does not bind the name NOW
+	getG := func(c *cellv) (string, error) {
+		if c == nil || !c.bound {
+			if v, ok := c03BuiltinNames[name]; ok {
+				return v, nil
+			}
+		}
+		return get(c)
+	}
 	switch {
 	case s.kind == scModule:
-		return get(in.globals[name])
+		return getG(in.globals[name])
 	case f.info.global[name]:
-		return get(in.globals[name])
+		return getG(in.globals[name])
 	case f.info.nonlocal[name]:
 		c, ok := f.enclosingCell(name)
 		if !ok {
@@ -429,7 +441,7 @@ func (in *c03interp) load(f *c03frame, name string) (string, error) {
 			if c := f.vars[name]; c != nil && c.bound {
 				return c.val, nil
 			}
-			return get(in.globals[name])
+			return getG(in.globals[name])
 		}
 		// free in the class body: the class namespace first (it can only have got there
 		// dynamically), then the enclosing function's cell, else global
@@ -439,7 +451,7 @@ func (in *c03interp) load(f *c03frame, name string) (string, error) {
 		if c, ok := f.enclosingCell(name); ok {
 			return get(c)
 		}
-		return get(in.globals[name])
+		return getG(in.globals[name])
 	default: // function-like
 		if f.info.bound[name] {
 			return get(f.vars[name])
@@ -447,9 +459,12 @@ func (in *c03interp) load(f *c03frame, name string) (string, error) {
 		if c, ok := f.enclosingCell(name); ok {
 			return get(c)
 		}
-		return get(in.globals[name])
+		return getG(in.globals[name])
 	}
 }
+
+// names the builtins module binds, with the canonical form of their value
+var c03BuiltinNames = map[string]string{"abs": "<method>"}
 
 func (in *c03interp) target(f *c03frame, name string) *cellv {
 	s := f.scope
@@ -588,6 +603,9 @@ func (in *c03interp) run(f *c03frame) error {
 		case iImport:
 			c := in.target(f, it.name)
 			c.val, c.bound = "7", true
+		case iImportDot:
+			c := in.target(f, it.name)
+			c.val, c.bound = "<module>", true
 		case iUse:
 			v, err := in.load(f, it.name)
 			if s.kind.exprOnly() {
@@ -970,13 +988,21 @@ func c03ParamForms(visit func(mod *sscope, size int)) {
 // c03ClassBinds: a class body nested in a function binds x in each possible way (assignment,
 // import, del, global declaration, nothing) while the enclosing function binds x too, and a
 // method reads x: methods never see the class-level binding, they see the function's.
+func init() {
+	// `import x.q.m` / `import y.q.m` must succeed wherever a generated program runs
+	for _, n := range []string{"x.q.m", "y.q.m"} {
+		py.RegisterModule(&py.ModuleImpl{Info: py.ModuleInfo{Name: n}, Globals: py.StringDict{}})
+	}
+}
+
 func c03ClassBinds(visit func(mod *sscope, size int)) {
 	use := func() *sitem { return &sitem{k: iUse, name: "x"} }
 	binds := [][]*sitem{
 		{{k: iBind, name: "x"}}, {{k: iImport, name: "x"}}, {{k: iImport, name: "x"}, {k: iBind, name: "x"}}, {{k: iBind, name: "x"}, {k: iDel, name: "x"}},
 		{{k: iGlobal, name: "x"}, {k: iImport, name: "x"}}, {{k: iGlobal, name: "x"}, {k: iBind, name: "x"}}, {{k: iNonlocal, name: "x"}, {k: iImport, name: "x"}}, {},
+		{{k: iImportDot, name: "x"}}, {{k: iGlobal, name: "x"}, {k: iImportDot, name: "x"}},
 	}
-	for _, outerBind := range [][]*sitem{{{k: iBind, name: "x"}}, {{k: iImport, name: "x"}}, {}} {
+	for _, outerBind := range [][]*sitem{{{k: iBind, name: "x"}}, {{k: iImport, name: "x"}}, {}, {{k: iImportDot, name: "x"}}} {
 		for _, cb := range binds {
 			for _, nested := range []sckind{scDef, scLambda, scClass} {
 				for _, twoMethods := range []bool{false, true} {
@@ -1063,6 +1089,64 @@ func c03Snapshots(quick bool, visit func(mod *sscope, size int)) {
 	}
 }
 
+// c03Builtins: a name that only the builtins bind is read, then bound / deleted as a module
+// global behind the reader's back (by sibling functions that declare it global), and read
+// again - in one activation of a function, in a class body, and in a nested function: a global
+// lookup finds the module's binding whenever there is one and the builtin otherwise, every time.
+func c03Builtins(quick bool, visit func(mod *sscope, size int)) {
+	const N = "abs"
+	type step struct {
+		k    ikind
+		what int
+	}
+	alphabet := []step{{iUse, 0}, {iRecall, 0}, {iRecall, 1}}
+	maxLen := 5
+	if quick {
+		maxLen = 4
+	}
+	var seqs [][]step
+	var gen func(cur []step)
+	gen = func(cur []step) {
+		if len(cur) > 1 {
+			seqs = append(seqs, append([]step{}, cur...))
+		}
+		if len(cur) == maxLen {
+			return
+		}
+		for _, st := range alphabet {
+			gen(append(cur, st))
+		}
+	}
+	gen(nil)
+	for _, mk := range []sckind{scDef, scClass} {
+		for _, nested := range []bool{false, true} {
+			for _, sq := range seqs {
+				rebind := &sscope{kind: scDef, items: []*sitem{{k: iGlobal, name: N}, {k: iBind, name: N}}}
+				unbind := &sscope{kind: scDef, items: []*sitem{{k: iGlobal, name: N}, {k: iDel, name: N}}}
+				mid := &sscope{kind: mk}
+				for _, st := range sq {
+					it := &sitem{k: st.k, name: N}
+					if st.k == iRecall {
+						it.ref = rebind
+						if st.what == 1 {
+							it.ref = unbind
+						}
+					}
+					mid.items = append(mid.items, it)
+				}
+				if nested {
+					// the reads happen one function further in, in a single activation of it
+					mid = &sscope{kind: scDef, items: []*sitem{{k: iChild, child: mid}}}
+				}
+				outer := &sscope{kind: scDef, items: []*sitem{{k: iChild, child: rebind, nocall: true}, {k: iChild, child: unbind, nocall: true},
+					{k: iChild, child: mid}, {k: iUse, name: N}}}
+				mod := &sscope{kind: scModule, items: []*sitem{{k: iChild, child: outer}, {k: iUse, name: N}}}
+				visit(mod, 8+len(sq))
+			}
+		}
+	}
+}
+
 func countScopes(s *sscope) int {
 	n := 1
 	for _, it := range s.items {
@@ -1137,6 +1221,16 @@ func c03Run(rc *core.RunCtx) {
 			return
 		}
 		c03One(c, cloneScope(mod, nil), size, 97)
+	})
+	rc.Part = "builtins"
+	c03Builtins(rc.Quick(), func(mod *sscope, size int) {
+		if rc.Expired() || rc.Done() {
+			return
+		}
+		if !rc.Take() {
+			return
+		}
+		c03One(c, cloneScope(mod, nil), size, 98)
 	})
 	seen := 0
 	for pi, pl := range plans {
